@@ -117,6 +117,128 @@ fn special_hi(r: &mut Rng) -> W {
     }
 }
 
+
+// ------------------------------------------------------------------------------------------
+// Differential triage: the current tree and a frozen reference copy (harness/refcrate) are run side
+// by side at native speed on a much larger argument stream than the mp checker could judge; only
+// the arguments on which their words differ are logged (and then judged by the oracle like any
+// other event). The reference is never used as an oracle.
+// ------------------------------------------------------------------------------------------
+
+use twofloat_ref::TwoFloat as RefTF;
+
+fn rt(a: W) -> RefTF {
+    twofloat_ref::verif_hooks::from_raw(a.0, a.1)
+}
+fn canon_bits(x: f64) -> u64 {
+    if x.is_nan() {
+        0x7ff8_0000_0000_0000
+    } else {
+        x.to_bits()
+    }
+}
+
+pub struct Dom {
+    pub emin: i64,
+    pub emax: i64,
+    pub lin: &'static [f64],
+    pub positive: bool,
+}
+
+fn triage_arg(r: &mut Rng, d: &Dom, prev: W) -> W {
+    let a = match r.below(10) {
+        0 | 1 | 2 => tf_in(r, d.emin, d.emax),
+        3 | 4 | 5 => {
+            let l = d.lin[r.below(d.lin.len() as u64) as usize];
+            let u = (r.next() >> 11) as f64 * pow2(-53);
+            let hi = l * (2.0 * u - 1.0);
+            let (h, lo, _) = tf_with_hi(r, hi);
+            (h, lo)
+        }
+        6 => special_hi(r),
+        7 => crate::pools::published_const(r),
+        8 => {
+            if r.coin() {
+                crate::pools::round_integer(r)
+            } else {
+                prev
+            }
+        }
+        _ => {
+            // neighbour of the previous argument: same high word, other low word / stepped high word
+            if prev.0 != 0.0 && prev.0.is_finite() {
+                let h = step(prev.0, r.range(-2, 2));
+                let (h, l, _) = tf_with_hi(r, h);
+                (h, l)
+            } else {
+                tf_in(r, d.emin, d.emax)
+            }
+        }
+    };
+    let a = if d.positive { (a.0.abs(), if a.0 < 0.0 { -a.1 } else { a.1 }) } else { a };
+    if valid_ref(a.0, a.1) && a.0.is_finite() {
+        a
+    } else {
+        (1.5, 0.0)
+    }
+}
+
+/// Unary functions: returns the number of differing arguments found (all of them logged).
+fn triage_unary(e: &mut Emit, funcs: &[(&str, fn(TwoFloat) -> TwoFloat, fn(RefTF) -> RefTF)], d: &Dom, n: u64) {
+    let mut prev = (1.0, 0.0);
+    let mut found = 0u64;
+    for _ in 0..n {
+        let a = triage_arg(&mut e.rng, d, prev);
+        prev = a;
+        for (name, f, g) in funcs {
+            let (f, g) = (*f, *g);
+            let r1 = crate::ctx::guard(|| f(t(a)));
+            let r2 = crate::ctx::guard(|| g(rt(a)));
+            let same = match (&r1, &r2) {
+                (Ok(x), Ok(y)) => canon_bits(x.hi()) == canon_bits(y.hi()) && canon_bits(x.lo()) == canon_bits(y.lo()),
+                (Err(_), Err(_)) => true,
+                _ => false,
+            };
+            e.triaged += 1;
+            if !same && found < 5_000 {
+                found += 1;
+                e.triage_diffs += 1;
+                e.ev(name, &tf1(a), || v2(f(t(a))));
+            }
+        }
+    }
+}
+
+fn triage_binary(e: &mut Emit, name: &str, f: fn(TwoFloat, TwoFloat) -> TwoFloat, g: fn(RefTF, RefTF) -> RefTF, dx: &Dom, dy: &Dom, n: u64) {
+    let (mut px, mut py) = ((1.5, 0.0), (2.0, 0.0));
+    let mut found = 0u64;
+    for _ in 0..n {
+        let x = triage_arg(&mut e.rng, dx, px);
+        let y = if e.rng.chance(1, 6) {
+            let sg = e.rng.coin();
+            let (h, l, _) = tf_with_hi(&mut e.rng, if sg { x.0 } else { -x.0 });
+            (h, l)
+        } else {
+            triage_arg(&mut e.rng, dy, py)
+        };
+        px = x;
+        py = y;
+        let r1 = crate::ctx::guard(|| f(t(x), t(y)));
+        let r2 = crate::ctx::guard(|| g(rt(x), rt(y)));
+        let same = match (&r1, &r2) {
+            (Ok(a), Ok(b)) => canon_bits(a.hi()) == canon_bits(b.hi()) && canon_bits(a.lo()) == canon_bits(b.lo()),
+            (Err(_), Err(_)) => true,
+            _ => false,
+        };
+        e.triaged += 1;
+        if !same && found < 5_000 {
+            found += 1;
+            e.triage_diffs += 1;
+            e.ev(name, &[hx(x.0), hx(x.1), hx(y.0), hx(y.1)], || v2(f(t(x), t(y))));
+        }
+    }
+}
+
 // ------------------------------------------------------------------------------------------
 // C12: constants
 // ------------------------------------------------------------------------------------------
@@ -560,6 +682,10 @@ fn exp_args(e: &mut Emit, i: u64) -> W {
 }
 
 pub fn emit_c14(e: &mut Emit) {
+    let nt = e.budget(3_000_000, 300_000_000);
+    triage_unary(e, &[("exp", |x| x.exp(), |x| x.exp()), ("exp_m1", |x| x.exp_m1(), |x| x.exp_m1())], &Dom { emin: -60, emax: 9, lin: &[1.0, 4.0, 40.0, 700.0], positive: false }, nt / 3);
+    triage_unary(e, &[("exp2", |x| x.exp2(), |x| x.exp2())], &Dom { emin: -60, emax: 9, lin: &[1.0, 4.0, 40.0, 1000.0], positive: false }, nt / 3);
+    triage_binary(e, "powf", |x, y| x.powf(y), |x, y| x.powf(y), &Dom { emin: -30, emax: 29, lin: &[2.0, 40.0, 1000.0], positive: true }, &Dom { emin: -20, emax: 3, lin: &[1.0, 10.0], positive: false }, nt / 3);
     emit_grid(e, &[("exp", |x| x.exp()), ("exp_m1", |x| x.exp_m1()), ("exp2", |x| x.exp2())], &[(0.0, 1.0), (0.0, 40.0), (50.0, 650.0)], |_| true);
     for _ in 0..e.budget(40_000, 2_000_000) {
         let a = special_hi(&mut e.rng);
@@ -776,6 +902,9 @@ pub fn c15(c: &mut Ctx) {
 }
 
 pub fn emit_c15(e: &mut Emit) {
+    let nt = e.budget(3_000_000, 300_000_000);
+    triage_unary(e, &[("ln", |x| x.ln(), |x| x.ln()), ("log2", |x| x.log2(), |x| x.log2()), ("log10", |x| x.log10(), |x| x.log10())], &Dom { emin: -1000, emax: 959, lin: &[2.0, 40.0, 1e6], positive: true }, nt / 2);
+    triage_unary(e, &[("ln_1p", |x| x.ln_1p(), |x| x.ln_1p())], &Dom { emin: -60, emax: 100, lin: &[0.999, 0.01, 4.0], positive: false }, nt / 2);
     emit_grid(e, &[("ln", |x| x.ln()), ("log2", |x| x.log2()), ("log10", |x| x.log10()), ("ln_1p", |x| x.ln_1p())], &[(1.0, 0.999), (20.0, 19.0), (500.0, 499.0)], |a| a.0 > 0.0);
     emit_grid(e, &[("ln_1p", |x| x.ln_1p())], &[(0.0, 0.999)], |a| a.0 > -1.0);
     for _ in 0..e.budget(40_000, 2_000_000) {
@@ -966,6 +1095,8 @@ pub fn c16(c: &mut Ctx) {
 }
 
 pub fn emit_c16(e: &mut Emit) {
+    let nt = e.budget(3_000_000, 300_000_000);
+    triage_unary(e, &[("sin", |x| x.sin(), |x| x.sin()), ("cos", |x| x.cos(), |x| x.cos()), ("tan", |x| x.tan(), |x| x.tan())], &Dom { emin: -60, emax: 19, lin: &[1.0, 8.0, 1000.0, 1.0e6], positive: false }, nt);
     emit_grid(e, &[("sin", |x| x.sin()), ("cos", |x| x.cos()), ("tan", |x| x.tan())], &[(0.0, 1.0), (0.0, 40.0), (0.0, 3000.0)], |_| true);
     for _ in 0..e.budget(40_000, 2_000_000) {
         let a = special_hi(&mut e.rng);
@@ -1066,6 +1197,10 @@ pub fn c17(c: &mut Ctx) {
 }
 
 pub fn emit_c17(e: &mut Emit) {
+    let nt = e.budget(3_000_000, 300_000_000);
+    triage_unary(e, &[("asin", |x| x.asin(), |x| x.asin()), ("acos", |x| x.acos(), |x| x.acos())], &Dom { emin: -60, emax: -1, lin: &[1.0, 0.6], positive: false }, nt / 3);
+    triage_unary(e, &[("atan", |x| x.atan(), |x| x.atan())], &Dom { emin: -60, emax: 59, lin: &[1.0, 3.0, 100.0, 1.0e6], positive: false }, nt / 3);
+    triage_binary(e, "atan2", |y, x| y.atan2(x), |y, x| y.atan2(x), &Dom { emin: -30, emax: 29, lin: &[2.0, 1000.0], positive: false }, &Dom { emin: -30, emax: 29, lin: &[2.0, 1000.0], positive: false }, nt / 3);
     emit_grid(e, &[("asin", |x| x.asin()), ("acos", |x| x.acos())], &[(0.0, 0.9999)], |_| true);
     emit_grid(e, &[("atan", |x| x.atan())], &[(0.0, 1.0), (0.0, 4.0), (0.0, 100.0)], |_| true);
     // dense windows (+-3%) around every reduction breakpoint: errors that only just exceed the bound
@@ -1228,6 +1363,11 @@ pub fn c18(c: &mut Ctx) {
 }
 
 pub fn emit_c18(e: &mut Emit) {
+    let nt = e.budget(3_000_000, 300_000_000);
+    triage_unary(e, &[("sinh", |x| x.sinh(), |x| x.sinh()), ("cosh", |x| x.cosh(), |x| x.cosh()), ("tanh", |x| x.tanh(), |x| x.tanh())], &Dom { emin: -60, emax: 9, lin: &[0.1, 1.0, 40.0, 600.0], positive: false }, nt / 3);
+    triage_unary(e, &[("asinh", |x| x.asinh(), |x| x.asinh())], &Dom { emin: -60, emax: 59, lin: &[1.0, 100.0, 1.0e6], positive: false }, nt / 6);
+    triage_unary(e, &[("acosh", |x| x.acosh(), |x| x.acosh())], &Dom { emin: 0, emax: 59, lin: &[2.0, 100.0, 1.0e6], positive: true }, nt / 6);
+    triage_unary(e, &[("atanh", |x| x.atanh(), |x| x.atanh())], &Dom { emin: -60, emax: -1, lin: &[0.999, 0.3], positive: false }, nt / 3);
     emit_grid(e, &[("sinh", |x| x.sinh()), ("cosh", |x| x.cosh()), ("tanh", |x| x.tanh()), ("asinh", |x| x.asinh())], &[(0.0, 1.0), (0.0, 40.0), (0.0, 600.0)], |_| true);
     emit_grid(e, &[("atanh", |x| x.atanh())], &[(0.0, 0.999)], |_| true);
     emit_grid(e, &[("acosh", |x| x.acosh())], &[(2.0, 0.9999), (50.0, 48.0)], |a| a.0 > 1.0);
